@@ -323,6 +323,9 @@ func fntAlphabet(k *fntKind, F font.Layouter) []string {
 	return a
 }
 
+// fntTailDone: simple kinds that already had a page ending with the re-show of used glyphs.
+var fntTailDone = map[string]bool{}
+
 // fntZeroTail: per kind, (character, hex of its code without the trailing zero bytes).
 var fntZeroTail = map[string][][2]string{}
 
@@ -1145,19 +1148,10 @@ func runFntE2E(c *Ctx) {
 			tc.Shows = append(tc.Shows, sh)
 		}
 		// histories: early queries of the font instance, then (a) glyphs already used shown again
-		// with NEW texts and no new glyph, (b) new glyphs
-		if rr.P(1, 2) && len(tc.Shows) >= 2 {
-			ne := 1 + rr.Intn(3)
-			last := 0
-			for e := 0; e < ne; e++ {
-				ev := fntEarly{After: rr.Intn(len(tc.Shows)), Font: rr.Intn(len(idx)), Kind: Pick(rr, fntEarlyKinds)}
-				if ev.After > last {
-					last = ev.After
-				}
-				tc.Early = append(tc.Early, ev)
-				c.Stat("e2e.early." + ev.Kind)
-			}
-			base := tc.Shows[rr.Intn(last+1)]
+		// with NEW texts and no new glyph, (b) new glyphs — or, on "tail" pages, nothing after (a):
+		// the page ENDS with the re-show, so that no new glyph makes the font instance rebuild
+		// whatever it derived at the early query.  The first page of every simple kind is a tail page.
+		reshow := func(base fntShow) fntShow {
 			again := fntShow{Font: base.Font, Text: base.Text}
 			if !fntKinds[idx[base.Font]].identity {
 				seq := probes[base.Font].Layout(nil, 9, base.Text)
@@ -1173,9 +1167,55 @@ func runFntE2E(c *Ctx) {
 			} else if base.Ov != nil {
 				again.Ov = base.Ov
 			}
-			tc.Shows = append(tc.Shows, again)
-			if len(alphas[base.Font]) > 0 {
-				tc.Shows = append(tc.Shows, fntShow{Font: base.Font, Text: fntGenString(rr, alphas[base.Font], 5+rr.Intn(20))})
+			return again
+		}
+		firstLabel := fntKinds[idx[0]].label
+		forceTail := !fntKinds[idx[0]].composite && !fntTailDone[firstLabel]
+		if (forceTail || rr.P(1, 2)) && len(tc.Shows) >= 1 {
+			if forceTail || rr.P(2, 5) {
+				// the base: a show of the first font if there is one
+				var cand []int
+				for si, sh := range tc.Shows {
+					if sh.Font == 0 {
+						cand = append(cand, si)
+					}
+				}
+				bi := rr.Intn(len(tc.Shows))
+				if len(cand) > 0 {
+					bi = Pick(rr, cand)
+				}
+				base := tc.Shows[bi]
+				tc.Late = false // shows in the order given: the re-show is the last thing on the page
+				for _, k := range []string{"info", "names", "embed"} {
+					if rr.P(2, 3) || (k == "info" && forceTail) {
+						tc.Early = append(tc.Early, fntEarly{After: len(tc.Shows) - 1, Font: base.Font, Kind: k})
+						c.Stat("e2e.early." + k)
+					}
+				}
+				if len(tc.Early) == 0 {
+					tc.Early = append(tc.Early, fntEarly{After: len(tc.Shows) - 1, Font: base.Font, Kind: "names"})
+				}
+				tc.Shows = append(tc.Shows, reshow(base))
+				if base.Font == 0 {
+					fntTailDone[firstLabel] = true
+				}
+				c.Stat("e2e.pages-ending-with-reshow")
+			} else {
+				ne := 1 + rr.Intn(3)
+				last := 0
+				for e := 0; e < ne; e++ {
+					ev := fntEarly{After: rr.Intn(len(tc.Shows)), Font: rr.Intn(len(idx)), Kind: Pick(rr, fntEarlyKinds)}
+					if ev.After > last {
+						last = ev.After
+					}
+					tc.Early = append(tc.Early, ev)
+					c.Stat("e2e.early." + ev.Kind)
+				}
+				base := tc.Shows[rr.Intn(last+1)]
+				tc.Shows = append(tc.Shows, reshow(base))
+				if len(alphas[base.Font]) > 0 {
+					tc.Shows = append(tc.Shows, fntShow{Font: base.Font, Text: fntGenString(rr, alphas[base.Font], 5+rr.Intn(20))})
+				}
 			}
 		}
 		if nMiss > 0 {
